@@ -61,13 +61,16 @@ def main():
             return ("C17",)
         if name.endswith("BeltStore_gate"):
             return ("C12", "C13")
+        if "_slot_before_" in name:
+            return ("C08",)
         return ()
     for k, v in tr.get("fragments", {}).items():
         if v.get("status") != "ok" and pid in frag_props(k):
             broken.append("tie B: %s could not be regenerated from %s (%s)" % (k, v.get("source"), v.get("why", "")[:160]))
     for target, props in (("theories/Edges/TieB.vo", ("C01", "C02", "C04", "C09", "C11", "C15")),
                           ("theories/Nodes/TieAcc.vo", ("C15", "C17")),
-                          ("theories/Edges/TieBelt.vo", ("C12", "C13"))):
+                          ("theories/Edges/TieBelt.vo", ("C12", "C13")),
+                          ("theories/Nodes/TieNodes.vo", ("C08",))):
         if pid in props:
             okt, logt = lib.build_coq_target(target)
             if not okt:
